@@ -42,7 +42,7 @@ CHECKS = {
     design_ref='DESIGN.md 4.4, 5 C25; design/session.md',
     note='Trusted: TLC, fakeredis, hook placement in pool.go, attribution of commands by key tag (MULTI/EXEC/CLIENT TRACKING ON carry none and are attributed to the holder of their connection). '
          'Bounded: the Go scheduler is perturbed, not controlled; a release racing with an in-flight call of the same dedicated client (documented misuse) is not explored; '
-         'scripts never clear an invalidation hook before release. Known findings (see proposed/known_findings_session.json): two consequences of a MULTI left open.'),
+         'scripts never clear an invalidation hook before release. Known findings (see known_findings.json): two consequences of a MULTI left open.'),
  'C29': dict(
     level='model_checking',
     technique='stream part of PoolSessions.tla model-checked by TLC; TLC-enumerated scenarios with predicted step results replayed against the real DoStream/DoMultiStream/WriteTo over fakeredis; seeded concurrent stream runs',
